@@ -297,6 +297,9 @@ func (g *gen) genStatement(typ types.Type, this, that string) error {
 			p.P("}")
 			p.P("return 1")
 		default:
+			if ttyp.Info()&types.IsOrdered == 0 {
+				return fmt.Errorf("unsupported compare type: %s is not ordered", g.TypeString(typ))
+			}
 			p.P("if %s != %s {", this, that)
 			p.In()
 			p.P("if %s < %s {", this, that)
